@@ -1,22 +1,22 @@
 (* C19 — history model of client session resumption (FIXED code: with
    fixes/C19-ems-downgrade.diff applied to loadSession).
 
-   One connection = build the hello (uTLS: u_conn.go:108-201 buildHandshakeState /
+   One connection = build the hello (uTLS: u_conn.go:113-222 buildHandshakeState /
    uLoadSession / uApplyPatch, u_session_controller.go:85-97,148-213,265-316; crypto/tls
-   path for HelloGolang) including Conn.loadSession (handshake_client.go:396-563), then the
+   path for HelloGolang) including Conn.loadSession (handshake_client.go:396-567), then the
    RFC-level decision of the peer (the Go server of the same package:
    handshake_server.go:451-547 checkForResumption, handshake_server_tls13.go group
    selection / checkForResumption), then what the client stores
    (handshake_client.go saveSessionTicket, handshake_client_tls13.go handleNewSessionTicket)
-   and the Put(key,nil) of u_handshake_client.go:452-466 on a failed resumption.
+   and the Put(key,nil) of u_handshake_client.go:482-496 on a failed resumption.
 
-   The cache is an abstract map keyed by clientSessionCacheKey (handshake_client.go:1332,
+   The cache is an abstract map keyed by clientSessionCacheKey (handshake_client.go:1340,
    = Config.ServerName when non-empty); C36 proves the LRU cache is such a map as long
    as fewer keys than its capacity are in use.
 
    Byte level only where the property talks about bytes: the pre_shared_key extension
    (u_pre_shared_key.go:166-251 pskExtLen / readPskIntoBytes) and the binder patch
-   (u_pre_shared_key.go:264-308 PatchBuiltHello, handshake_messages.go marshalWithoutBinders
+   (u_pre_shared_key.go:269-313 PatchBuiltHello, handshake_messages.go marshalWithoutBinders
    / updateBinders). Definitions only; proofs are in Proofs/ResumeP.v. *)
 From UV Require Import Base.Common.
 
@@ -27,8 +27,8 @@ Definition V13 : N := 772.
 Definition LIFETIME : N := 604800. (* maxSessionTicketLifetime = 7 days, in seconds *)
 
 (* error / panic codes *)
-Definition E_EMPTY_PSK : N := 1.   (* ErrEmptyPsk, u_pre_shared_key.go:258 *)
-Definition E_PSK_HRR : N := 2.     (* handshake_client_tls13.go:399 *)
+Definition E_EMPTY_PSK : N := 1.   (* ErrEmptyPsk, u_pre_shared_key.go:257-267 *)
+Definition E_PSK_HRR : N := 2.     (* handshake_client_tls13.go:394 *)
 Definition E_SRV_EMS : N := 3.     (* handshake_server.go:535, RFC 7627 5.3 MUST abort *)
 Definition E_VERSION : N := 4.     (* no common protocol version *)
 Definition E_NO_GROUP : N := 5.    (* TLS 1.3: no common group *)
@@ -109,12 +109,12 @@ Record conn := mkConn {
   c_tlen : N         (* length of the ticket label the server would issue (input) *)
 }.
 
-(* clientSessionCacheKey, handshake_client.go:1332-1340: the ServerName exactly as configured (no
+(* clientSessionCacheKey, handshake_client.go:1340-1348: the ServerName exactly as configured (no
    normalisation: "a.test." and "a.test", "127.0.0.1" and "127.0.0.2" are different keys) when it is
    non-empty, else the remote address. Strings are represented by their identities: equal ids = equal strings.
    The VerifyHostname re-check of loadSession and the full-handshake verification use Config.ServerName; they only
    run when InsecureSkipVerify is off, and then ServerName is non-empty (otherwise the handshake is refused
-   before anything is built, handshake_client.go:52 / u_handshake_client.go:406 — outside the model's domain),
+   before anything is built, handshake_client.go:52 / u_handshake_client.go:436 — outside the model's domain),
    so c_name is the verified name there. *)
 Definition c_name (c : conn) : N := if c_sname c =? 0 then c_addr c else c_sname c.
 Arguments c_name : simpl never.
@@ -131,7 +131,7 @@ Definition mem (x : N) (l : list N) : bool := existsb (N.eqb x) l.
 Definition hash_len (suite : N) : N :=
   if suite =? 4865 then 32 else if suite =? 4866 then 48 else if suite =? 4867 then 32 else 0.
 
-(* ---- Conn.loadSession, handshake_client.go:396-563 ---- *)
+(* ---- Conn.loadSession, handshake_client.go:396-567 ---- *)
 Inductive offer_kind := ViaTicket | ViaPsk.
 Record loaded := mkLoaded { l_cache : cache; l_sess : option (offer_kind * session) }.
 
@@ -181,18 +181,18 @@ Definition count_ticket (l : list ext) : nat := length (filter (ext_eqb XTicket)
 Definition build (ca : cache) (c : conn) : built :=
   let sp := c_spec c in
   if sp_go sp then
-    (* u_conn.go:109-125 + u_handshake_client.go:432-436: plain loadSession, binders written by it *)
+    (* u_conn.go:114-130 + u_handshake_client.go:462-466: plain loadSession, binders written by it *)
     let l := load_session ca c true in
     BOk (l_cache l) (l_sess l) (match l_sess l with Some (ViaPsk, _) => true | _ => false end)
   else
   if (1 <? count_ticket (sp_exts sp))%nat then BPanic ca P_MULTI_TICKET else
   if negb (psk_positions_ok (sp_exts sp)) then BPanic ca P_PSK_NOT_LAST else
-  (* u_conn.go:165-192 uLoadSession; shouldLoadSession u_session_controller.go:85-97 *)
+  (* u_conn.go:186-213 uLoadSession; shouldLoadSession u_session_controller.go:85-97 *)
   if negb (has XTicket (sp_exts sp)) && negb (has XPsk (sp_exts sp)) then BOk ca None false else
   let l := load_session ca c (has XEms (sp_exts sp)) in
   let ca' := l_cache l in
   let finish (off : option (offer_kind * session)) :=
-    (* MarshalClientHello: an uninitialised UtlsPreSharedKeyExtension has Len 0, u_pre_shared_key.go:257-262 *)
+    (* MarshalClientHello: an uninitialised UtlsPreSharedKeyExtension has Len 0, u_pre_shared_key.go:257-267 (with OmitEmptyPsk nothing is written) *)
     match off with
     | Some (ViaPsk, _) => BOk ca' off true
     | _ => if has XPsk (sp_exts sp) && negb (c_omit c) then BErr ca' E_EMPTY_PSK else BOk ca' off false
@@ -201,16 +201,18 @@ Definition build (ca : cache) (c : conn) : built :=
   | None => finish None
   | Some (k, s) =>
     if s_vers s =? V12 then
-      (* u_conn.go:182-185: initSessionTicketExt returns early without the extension, then the uAssert fires *)
+      (* u_conn.go:203-206: initSessionTicketExt returns early without the extension, then the uAssert fires *)
       if has XTicket (sp_exts sp) then finish (Some (ViaTicket, s)) else BPanic ca' P_TICKET_ASSERT
     else
-      (* u_conn.go:187: every other version goes to initPskExt *)
+      (* u_conn.go:208: every other version goes to initPskExt *)
       if negb (has XPsk (sp_exts sp)) then finish None    (* assertCanSkip; the session is dropped *)
       else if s_vers s =? V13 then finish (Some (ViaPsk, s))
       else BPanic ca' P_NIL_EARLY
   end.
 
 (* ---- the peer ---- *)
+(* the server's choice is one of hello.supportedVersions, so the client-side check that the selected version was
+   offered (u_handshake_client.go:553-562) never fires here *)
 Definition negotiate (sv : server) (sp : spec) : option N := find (fun v => mem v (sp_vers sp)) (sv_vers sv).
 
 Definition is_pq (g : N) : bool := g =? 4588.
@@ -246,7 +248,7 @@ Definition stored (c : conn) (v suite : N) (ems : bool) (resumed_from : option s
   | None => mkSession v suite ems (c_now c) (c_now c + LIFETIME) (negb (c_skipverify c)) (sv_notafter sv) (sv_certnames sv) (c_name c) tk
   end.
 
-(* failure of a handshake that had loaded a session: u_handshake_client.go:452-466 *)
+(* failure of a handshake that had loaded a session: u_handshake_client.go:482-496 *)
 Definition fail (ca : cache) (c : conn) (off : option (offer_kind * session)) : cache :=
   match off with Some _ => del (c_name c) ca | None => ca end.
 
@@ -267,7 +269,7 @@ Definition step (ca : cache) (c : conn) : cache * obs :=
         | None => (fail ca' c off, ob false (SrvErr E_NO_GROUP))
         | Some _ =>
           let hrr := needs_hrr sv sp in
-          (* handshake_client_tls13.go:396-400 *)
+          (* handshake_client_tls13.go:391-395 *)
           if hrr && negb (sp_go sp) && pskext then (fail ca' c off, ob true (CliErr E_PSK_HRR)) else
           if hash_len (c_suite c) =? 0 then (fail ca' c off, ob hrr (SrvErr E_NO_SUITE)) else
           let accepted :=
@@ -363,7 +365,7 @@ Definition psk_ext (ids : list ident) (bs : list bytes) : bytes :=
 (* loadSession:541 / InitializeByUtls u_pre_shared_key.go:151-154: zero binders of the hash size *)
 Definition placeholder (suite : N) : bytes := repeat 0 (N.to_nat (hash_len suite)).
 
-(* PatchBuiltHello u_pre_shared_key.go:264-308 on raw = everything before ++ psk_ext: marshalWithoutBinders
+(* PatchBuiltHello u_pre_shared_key.go:269-313 on raw = everything before ++ psk_ext: marshalWithoutBinders
    cuts len(raw) - (2 + sum(1+len binder)) bytes (computed from the placeholder binders), the new binders
    are appended with a FIXED-size builder over the original: any length change is an error. *)
 Definition patch (raw : bytes) (old new : list bytes) : res bytes :=
